@@ -36,6 +36,7 @@ type obsTerm struct {
 }
 
 type Exec struct {
+	mute bool // an expression is being re-evaluated for its value only: its obligations were generated where the code evaluates it
 	observe []obsTerm
 	inlinedKeys []string
 	ownLoops int // number of loops in the function under verification itself
@@ -437,7 +438,7 @@ func (x *Exec) ordinal(n ast.Node) int { return x.ords[n] }
 
 // oblige records a proof obligation: goal must hold on the current path.
 func (x *Exec) oblige(st *State, kind, name string, tags []string, goal string) {
-	if goal == "true" {
+	if goal == "true" || x.mute {
 		return
 	}
 	q := &Query{Ob: x.fn.name() + "#" + name, Kind: kind, Func: x.fn.name(), Tags: tags, Goal: implies(st.guard(), goal), Expect: "unsat", Params: x.params, Observe: x.observe}
@@ -561,7 +562,13 @@ func (x *Exec) evalMulti(st *State, e ast.Expr) []Val {
 	case *ast.SliceExpr:
 		return []Val{x.evalSliceExpr(st, e)}
 	case *ast.CallExpr:
-		return x.evalCall(st, e)
+		vs := x.evalCall(st, e)
+		if len(vs) == 1 && x.accessorCall(e) {
+			if _, isChan := types.Unalias(x.info().TypeOf(e)).Underlying().(*types.Chan); isChan {
+				vs[0] = x.withOrigin(st, e, vs[0]) // a channel handed out by an accessor may be cached in a local
+			}
+		}
+		return vs
 	case *ast.UnaryExpr:
 		return []Val{x.evalUnary(st, e)}
 	case *ast.BinaryExpr:
@@ -646,7 +653,13 @@ func (x *Exec) withOrigin(st *State, e ast.Expr, v Val) Val {
 					env[o] = cur
 				}
 			}
-		case *ast.CallExpr, *ast.FuncLit:
+		case *ast.CallExpr:
+			// an accessor under contract that changes nothing (Output(), Err()): what it returns
+			// is determined by the state, the call may be part of a remembered expression
+			if !x.accessorCall(t) {
+				pure = false
+			}
+		case *ast.FuncLit:
 			pure = false
 		}
 		return true
@@ -655,6 +668,24 @@ func (x *Exec) withOrigin(st *State, e ast.Expr, v Val) Val {
 		v.Org = &origin{expr: e, env: env}
 	}
 	return v
+}
+
+// accessorCall: a call of a function under contract without modifies clause, not blocking.
+func (x *Exec) accessorCall(call *ast.CallExpr) bool {
+	fn := x.staticCallee(call)
+	if fn == nil {
+		return false
+	}
+	sp := x.sp.Funcs[funcKeyOf(fn)]
+	if sp == nil || sp.Blocking || sp.Trusted {
+		return false
+	}
+	for _, c := range sp.Clauses {
+		if c.Kind == "modifies" || c.Kind == "effect" || c.Kind == "effect-after" {
+			return false
+		}
+	}
+	return true
 }
 
 func (x *Exec) evalSelector(st *State, e *ast.SelectorExpr) Val {
